@@ -189,6 +189,9 @@ theorem rolling_buffer_height_ge (pH pW pD cH cW h w d : Nat)
    `frontier ≤ r + B`; so safety is `frontier p H b ≤ a + B`, and it holds under the exact inequality the
    proof forces:  stride + skirt_top + skirt_bottom ≤ k_dil + 1 + (B - p - c)
    (over-read of the box beyond the receptive field ≤ 1 + round-up slack of the buffer).
+   `rolling_rows_in_slot_partial` restates the conclusion in the Spec's own memory terms (every row the
+   hardware touches is found in its slot after the producer has written `[0, frontier)`), using
+   `Lemmas/Cascade.slot_holds_iff` (slot `r mod B` holds `r` iff `r < P ≤ r + B`).
    Missing: the inequality is not implied by the code (it fails e.g. for k=3, s=3, SAME, H ≡ 1 mod 3),
    and the link from `Model/Cascade.cascadeOrder` to `frontier` is validated by the check (issue order
    of the model = issue order of the real generator; Lean simulation of the real order), not proved. -/
@@ -269,6 +272,61 @@ theorem columns_receptive (k s d l skR W x0 x1 w0 tE bE rE : Int)
     generalize (x1 - w0) * s = X1 at *
     omega
 
+
+/-- **Rows read by a consumer stripe are still in their slots** (the rolling-buffer rule in the Spec's own
+    terms, under the hypothesis of `rolling_sufficient_partial`): when the producer has written rows
+    `[0, frontier)` in order into a buffer of `B` rows (`Spec.writeAll`), every row the hardware touches for
+    the consumer stripe `[y0, y1)` — from the box start to the end of the implicit extent — is found in slot
+    `row mod B` (`Mem.get … = some row`): it has been written and no later row has overwritten it. -/
+theorem rolling_rows_in_slot_partial (H p q s d k top skB B y0 y1 : Int) (t : Nat)
+    (hp : 1 ≤ p) (hq : 1 ≤ q) (hs : 1 ≤ s) (hd : 1 ≤ d) (hk : 1 ≤ k) (hH : 1 ≤ H)
+    (hy0 : 0 ≤ y0) (hy : y0 < y1) (hyq : y1 ≤ y0 + q) (hyH : y1 ≤ H) (hT : 0 ≤ top)
+    (hsk : dilated k d - s ≤ top + skB)
+    (hB : p + min ((q - 1) * s + dilated k d) H ≤ B)
+    (hover : s + top + skB ≤ dilated k d + 1 + (B - p - min ((q - 1) * s + dilated k d) H)) :
+    let r := transformH y0 y1 0 none (some (s, top, skB)) H 1 (dilated k d)
+    let P := frontier p H r.b
+    ∀ row : Int, r.a ≤ row → row < r.a + implicitExtent (y1 - y0) s (dilated k d) r.pt r.pb →
+      (writeAll t B.toNat P.toNat).get t (row.toNat % B.toNat) = some row.toNat := by
+  intro r P row h1 h2
+  have hra0 : 0 ≤ r.a := by
+    simp only [r, transformH]
+    omega
+  suffices hmain : row < P ∧ P ≤ row + B by
+    have hBpos : 0 < B := by
+      have : 0 ≤ min ((q - 1) * s + dilated k d) H := by
+        have : 0 ≤ (q - 1) * s := Int.mul_nonneg (by omega) (by omega)
+        have : 0 ≤ (k - 1) * d := Int.mul_nonneg (by omega) (by omega)
+        unfold dilated
+        omega
+      omega
+    exact (slot_holds_iff t B.toNat (by omega) P.toNat row.toNat).mpr ⟨by omega, by omega⟩
+  have hkd : 1 ≤ dilated k d := by
+    unfold dilated
+    have : 0 ≤ (k - 1) * d := Int.mul_nonneg (by omega) (by omega)
+    omega
+  have hroll := rolling_sufficient_partial H p q s (dilated k d) top skB B y0 y1 hp hq hs hkd hH hy0 hy hyq hyH hT hB hover
+  obtain ⟨heq, _, _⟩ := stripe_receptive k s d top skB H y0 y1 0 hs hd (by omega) hy (by omega) hT hsk
+  obtain ⟨_, _, _, hb, he⟩ := transformH_up1 y0 y1 0 s top skB H (dilated k d) hs (by omega) hy (by omega) hT hsk
+  obtain ⟨_, _, _, e4⟩ := heq
+  simp only [Int.sub_zero] at e4 hb he
+  have hbH : r.b ≤ H := by rw [show r.b = _ from hb]; omega
+  have hfg := frontier_ge p H r.b hp hbH
+  have e1 : (y0 + (y1 - y0)) * s = y1 * s := by ring
+  rw [e1] at e4
+  have hcov : min (y1 * s - s - top + dilated k d) H ≤ r.b := by
+    rw [show r.b = _ from hb]
+    generalize y1 * s = Y1 at *
+    omega
+  constructor
+  · have : row < min (y1 * s - s - top + dilated k d) H := by
+      have : r.a + implicitExtent (y1 - y0) s (dilated k d) r.pt r.pb = 0 + min (y1 * s - s - top + dilated k d) H := e4
+      omega
+    show row < frontier p H r.b
+    omega
+  · show frontier p H r.b ≤ row + B
+    have : frontier p H r.b ≤ r.a + B := hroll
+    omega
 
 /-- conv3x3/s1 SAME over 37 rows in stripes of 3 → conv3x3/s3 SAME (13 output rows, one per stripe):
     `p = 3`, `c = 3`, `B = round_up(6, 3) = 6` -/
